@@ -139,7 +139,34 @@ func TestC18(t *testing.T) {
 			steps := 2 + rng.Intn(4)
 			for j := 0; j < steps; j++ {
 				after := ""
-				switch x := rng.Intn(9); x {
+				switch x := rng.Intn(11); x {
+				case 9, 10:
+					// a write through a pipeline: the caller's buffer is its own again as soon as Put / GetPut has returned,
+					// that is before Exec sends anything
+					pl, err := cdm.Pipeline()
+					if err != nil {
+						break
+					}
+					nv := []byte(fmt.Sprintf("piped-%d-%d-%050d", seq, j, rng.Intn(1000)))
+					pbuf := append([]byte{}, nv...)
+					if x == 9 {
+						_, err = pl.Put(ctx, key, pbuf)
+					} else {
+						_, err = pl.GetPut(ctx, key, pbuf)
+					}
+					if err == nil {
+						for i := range pbuf {
+							pbuf[i] = 'P'
+						}
+						err = pl.Exec(ctx)
+					}
+					pl.Close()
+					if err == nil {
+						val = nv
+						w.Emit(trace.Ev{"t": "put", "k": key, "v": digest(nv)})
+						w.Emit(trace.Ev{"t": "mutbuf", "k": key})
+						after = "a pipelined write whose buffer the caller reused before Exec"
+					}
 				case 8:
 					iterate()
 					after = "an iterator handed out keys"
